@@ -229,7 +229,7 @@ impl World {
     }
 
     pub fn op_str(&self, o: &OutPoint) -> String {
-        format!("{}.{}", self.ids.get(&o.txid).cloned().unwrap_or(999), o.vout)
+        op_str_ids(&self.ids, o)
     }
 
     pub fn monitor(&self) -> ChainMonitor {
@@ -242,12 +242,46 @@ impl World {
         serde_json::to_value(&*st).unwrap()
     }
 
+    pub fn state_digest(&self, st: &serde_json::Value) -> String {
+        state_digest_ids(&self.ids, st)
+    }
+
+    pub fn set_str(&self, s: &lightning_signer::OrderedSet<OutPoint>) -> String {
+        set_str_ids(&self.ids, s)
+    }
+}
+
+pub fn op_str_ids(ids: &HashMap<Txid, u64>, o: &OutPoint) -> String {
+    format!("{}.{}", ids.get(&o.txid).cloned().unwrap_or(999), o.vout)
+}
+
+pub fn set_str_ids(ids: &HashMap<Txid, u64>, s: &lightning_signer::OrderedSet<OutPoint>) -> String {
+    let mut v: Vec<(u64, u32)> = s.iter().map(|o| (ids.get(&o.txid).cloned().unwrap_or(999), o.vout)).collect();
+    v.sort();
+    format!("[{}]", v.iter().map(|(a, b)| format!("{}.{}", a, b)).collect::<Vec<_>>().join(","))
+}
+
+pub fn listener_digest_ids(tracker: &ChainTracker<ChainMonitor>, key: &OutPoint, ids: &HashMap<Txid, u64>) -> String {
+    let (m, slot) = tracker.listeners.get(key).expect("listener");
+    let st = serde_json::to_value(&*m.get_state()).unwrap();
+    format!("{} w={} seen={}", state_digest_ids(ids, &st), set_str_ids(ids, &slot.watches), set_str_ids(ids, &slot.seen))
+}
+
+pub struct StateDigester<'a> {
+    ids: &'a HashMap<Txid, u64>,
+}
+
+pub fn state_digest_ids(ids: &HashMap<Txid, u64>, st: &serde_json::Value) -> String {
+    StateDigester { ids }.state_digest(st)
+}
+
+impl<'a> StateDigester<'a> {
     fn json_op(&self, v: &serde_json::Value) -> String {
         if v.is_null() {
             return "-".into();
         }
         let o = OutPoint::from_str(v.as_str().expect("outpoint string")).expect("outpoint");
-        self.op_str(&o)
+        op_str_ids(self.ids, &o)
     }
 
     pub fn state_digest(&self, st: &serde_json::Value) -> String {
@@ -292,16 +326,11 @@ impl World {
         )
     }
 
-    pub fn set_str(&self, s: &lightning_signer::OrderedSet<OutPoint>) -> String {
-        let mut v: Vec<(u64, u32)> = s.iter().map(|o| (self.ids.get(&o.txid).cloned().unwrap_or(999), o.vout)).collect();
-        v.sort();
-        format!("[{}]", v.iter().map(|(a, b)| format!("{}.{}", a, b)).collect::<Vec<_>>().join(","))
-    }
+}
 
+impl World {
     pub fn listener_digest(tracker: &ChainTracker<ChainMonitor>, key: &OutPoint, w: &World) -> String {
-        let (m, slot) = tracker.listeners.get(key).expect("listener");
-        let st = serde_json::to_value(&*m.get_state()).unwrap();
-        format!("{} w={} seen={}", w.state_digest(&st), w.set_str(&slot.watches), w.set_str(&slot.seen))
+        listener_digest_ids(tracker, key, &w.ids)
     }
 
     /// monitor State + ListenSlot
